@@ -59,6 +59,10 @@ func (d *dependencyAwarePostProcessors) PostProcessProperties(properties []*comp
 		//aware by name
 		if prop.TagVal != "" && (prop.Type.Kind() == reflect.Ptr || prop.Type.Kind() == reflect.Interface) {
 			dm := d.Registry.GetMetaByName(prop.TagVal)
+			if dm != nil && !dm.Value.Type().AssignableTo(prop.Type) {
+				//a component of that name exists but can not be held by this field: same as not found
+				dm = nil
+			}
 			prop.Injects = append(prop.Injects, dm)
 		}
 	}
